@@ -125,8 +125,11 @@ func checkC11(c *Ctx) {
 		fi := byFn[fn]
 		if len(fi.inserts) > 0 {
 			for _, ins := range fi.inserts {
-				mu := ins.Instr.(*ssa.MapUpdate)
-				rec := ir.Unwrap(mu.Value)
+				if ins.MapVal == nil {
+					c.R.Violate("R-replace-atomic", "replace in "+fname(fn), c.Pos(ins.Pos), sprintf("%s stores into %s through a helper a record that cannot be traced to the caller", fname(fn), table))
+					continue
+				}
+				rec := ir.Unwrap(ins.MapVal)
 				nReplace++
 				construct := "replace in " + fname(fn)
 				// the old record is looked up and cancelled in the same critical section
@@ -441,6 +444,16 @@ func checkC11(c *Ctx) {
 									if q == p && i < len(r.Call.Args) {
 										if e0, ok := withCtxOf(r.Call.Args[i]); ok {
 											isConnCtx = func(v ssa.Value) bool { return unspill(v) == e0 }
+											// the member the constructor keeps that context in (a parameter fed with it)
+											for name, mv := range memberStores(al) {
+												if mp, ok := unspill(mv).(*ssa.Parameter); ok {
+													for j, q2 := range k.Params {
+														if q2 == mp && j < len(r.Call.Args) && unspill(r.Call.Args[j]) == e0 {
+															ctxMember = name
+														}
+													}
+												}
+											}
 										}
 									}
 								}
